@@ -2,6 +2,9 @@ import WfModel.Serial
 import WfProofs.RunnerTimeout
 import WfProps.C04
 import WfProps.C02
+import WfProps.C11
+import WfProps.C12
+import WfProofs.RebuildRewind
 /-!
 # C31 — timeout and cancellation stop the run cleanly and keep it resumable
 
@@ -19,7 +22,15 @@ import WfProps.C02
   to the tick buffer (not to the timer heap), the buffer is drained before the mailbox — where a
   `TickCancelRun` may already wait — is looked at, and reducing the re-queue tick puts the event
   back into the step's tables; so the state the cancel tick keeps (and `ctx.to_dict()` writes)
-  holds it.
+  holds it;
+* **every generation**: `ctx.to_dict()` does not read the live state, it rebuilds it
+  (`rebuild_state_from_ticks`, model `rebuildAt`) from the state the run was *started from* and
+  the tick log.  For a run that was itself resumed from a stopped context that start state has
+  queue entries and nothing in progress; the run started them as workers before its first tick
+  (`rewind_in_progress`), so the rebuild must rewind too, always: the rewound base has the pending
+  work in progress (`C31_rebuild_base_starts_pending`), and from that base the log replays to the
+  live state at every point of every schedule, in particular after the cancel / timeout tick
+  (`C31_stopped_state_is_replay_of_log`, `C31_rebuilt_context_is_run_state`).
 -/
 set_option linter.unusedVariables false
 open Engine
@@ -218,3 +229,124 @@ example :
       (C31.race ++ [.pull, .drain, .drain, .pull, .drain])
     r.outcome = some (.halted .cancelledByUser) ∧ r.stream.getLast? = some .cancelled ∧
     ((r.st.workers 0).inProg.map (·.ev)) = [C31.start] ∧ ((r.st.workers 0).inProg.map (·.attempts)) = [1] := by decide
+
+
+/-! ## every generation: the context of a stopped run that was itself resumed -/
+
+/-- with an empty log the rebuilt state is the **rewound** start state -/
+theorem C31_rebuild_rewinds_first (cfg : Cfg) (st0 : State) (now : Int) :
+    rebuildAt cfg st0 [] now = some (rewind cfg st0 now).1 := rfl
+
+/-- A context left with work pending for step `c` — executing or only queued — comes back from
+`Context.from_dict` with that work in `c`'s queue and **nothing in progress**; the base of the
+rebuild (and of the resumed run) nevertheless has an invocation of `c` in progress: the rewind
+starts queued work, it does not merely re-number workers that were in progress. -/
+theorem C31_rebuild_base_starts_pending (cfg : Cfg) (hwf : cfg.WF) (st : State) (now : Int) (c : StepCfg)
+    (hc : c ∈ cfg.steps) (hnw : 0 < c.numWorkers)
+    (hp : (st.workers c.name).queue ≠ [] ∨ (st.workers c.name).inProg ≠ []) :
+    ((roundtrip cfg st).workers c.name).inProg = [] ∧
+    ∃ s, rebuildAt cfg (roundtrip cfg st) [] now = some s ∧ (s.workers c.name).inProg ≠ [] := by
+  have hs : cfg.hasStep c.name = true := (hasStep_iff_mem cfg c.name).mpr (List.mem_map_of_mem hc)
+  have hr := C12_resumed_step cfg st c.name hs
+  refine ⟨hr.2.1, _, rfl, ?_⟩
+  apply rewind_starts_pending cfg hwf _ now c hc hnw
+  left
+  intro hq
+  have h1 := hr.1
+  rw [hq] at h1
+  simp only [List.map_nil] at h1
+  have h2 := congrArg List.length h1
+  simp only [List.length_nil, List.length_append, List.length_map] at h2
+  rcases hp with hp | hp
+  · exact hp (List.eq_nil_of_length_eq_zero (by omega))
+  · exact hp (List.eq_nil_of_length_eq_zero (by omega))
+
+/-- **for every generation and every schedule**: whatever state the run was started from (a fresh
+one, or the deserialised context of a run that was cancelled or timed out before), at every point —
+in particular once a cancel or timeout tick has halted it — the state it is left in is the replay
+of its tick log from the *rewound* start state, and so is its serialised form -/
+theorem C31_stopped_state_is_replay_of_log (cfg : Cfg) (pol : Policy) (st0 : State) (now : Int)
+    (start : Option Ev) (timeout : Option Nat) (acts : List Act) :
+    let r := Runner.run cfg pol (Runner.init cfg st0 now start timeout) acts
+    r.st = C11.replay cfg pol (rewind cfg st0 now).1 r.log ∧
+    ser cfg r.st = ser cfg (C11.replay cfg pol (rewind cfg st0 now).1 r.log) := by
+  have h := C11_replay_invariant cfg pol st0 now start timeout acts
+  exact ⟨h, congrArg (ser cfg) h⟩
+
+theorem C31.rebuild_fold (cfg : Cfg) (pol : Policy) (now : Int) : ∀ (log : List Tick) (acc s : State),
+    (log.map (fun t => (t, pol))).foldl (fun (a : Option State) tp => a.bind fun s =>
+        let r := reduce cfg tp.2 tp.1 s now
+        if r.2.contains .crash then none else some r.1) (some acc) = some s →
+    s = C11.replay cfg pol acc (log.map (fun t => (t, now)))
+  | [], acc, s, h => by
+    simp only [List.map_nil, List.foldl_nil, Option.some.injEq] at h
+    simp [C11.replay, h]
+  | t :: rest, acc, s, h => by
+    simp only [List.map_cons, List.foldl_cons, Option.bind_some] at h
+    by_cases hc : (reduce cfg pol t acc now).2.contains .crash = true
+    · simp only [hc, if_true] at h
+      have hnone : ∀ (l : List (Tick × Policy)), l.foldl (fun (a : Option State) tp => a.bind fun s =>
+          let r := reduce cfg tp.2 tp.1 s now
+          if r.2.contains .crash then none else some r.1) none = none := by
+        intro l
+        induction l with
+        | nil => rfl
+        | cons x xs ih => simpa using ih
+      rw [hnone] at h
+      cases h
+    · simp only [hc, Bool.false_eq_true, if_false] at h
+      have ih := C31.rebuild_fold cfg pol now rest _ s h
+      simpa [C11.replay] using ih
+
+/-- the rebuilt context **is** the state the run was left in: when the clock did not move between
+the start of the run and the `to_dict()` call (every tick logged at `now`; how the result depends
+on the clock otherwise is the open `C11_time_erasure_statement`), `rebuild_state_from_ticks` on the
+run's own start state and tick log, if it does not raise, returns the live state -/
+theorem C31_rebuilt_context_is_run_state (cfg : Cfg) (pol : Policy) (st0 : State) (now : Int)
+    (start : Option Ev) (timeout : Option Nat) (acts : List Act) (s : State)
+    (hclock : ∀ p ∈ (Runner.run cfg pol (Runner.init cfg st0 now start timeout) acts).log, p.2 = now)
+    (h : rebuildAt cfg st0
+      ((Runner.run cfg pol (Runner.init cfg st0 now start timeout) acts).log.map (fun p => (p.1, pol))) now = some s) :
+    s = (Runner.run cfg pol (Runner.init cfg st0 now start timeout) acts).st := by
+  have hinv := C11_replay_invariant cfg pol st0 now start timeout acts
+  simp only at hinv
+  generalize (Runner.run cfg pol (Runner.init cfg st0 now start timeout) acts) = r at *
+  have hmap : r.log.map (fun p => (p.1, pol)) = (r.log.map (·.1)).map (fun t => (t, pol)) := by
+    simp [List.map_map]
+  have hlog : (r.log.map (·.1)).map (fun t => (t, now)) = r.log := by
+    rw [List.map_map]
+    apply map_eq_self
+    intro p hp
+    have := hclock p hp
+    cases p with
+    | mk a b => simp only at this; simp [this]
+  unfold rebuildAt at h
+  rw [hmap] at h
+  have := C31.rebuild_fold cfg pol now (r.log.map (·.1)) _ s h
+  rw [hlog] at this
+  rw [hinv]
+  exact this
+
+/-! Non-vacuity: the second generation.  The context of a cancelled run holds event 1 for the step
+(deserialised: queued, nothing in progress).  The resumed run (no start event) starts it as worker
+0 before any tick; the step completes, and the run is cancelled again.  From the rewound start
+state the log replays to the (empty) state the run was left in; from the start state as it is, the
+first logged result finds no worker 0. -/
+def C31.resumedState : State :=
+  { isRunning := true, workers := fun s => if s = 0 then { queue := [{ ev := C31.start }] } else {} }
+def C31.gen2 : List Act :=
+  [.workerDone 0 0 [.result none], .drain, .external .cancelRun, .drain, .pull, .drain]
+
+example : C31.cfg.WF := by simp [Cfg.WF, Cfg.names, C31.cfg]
+example :
+    ((rewind C31.cfg C31.resumedState 0).1.workers 0).inProg.map (fun i => (i.ev, i.wid)) = [(C31.start, 0)] ∧
+    (C31.resumedState.workers 0).inProg = [] := by decide
+example :
+    let r := Runner.run C31.cfg (fun _ _ _ _ => .stop) (Runner.init C31.cfg C31.resumedState 0 none none) C31.gen2
+    r.outcome = some (.halted .cancelledByUser) ∧ r.log.map (·.2) = [0, 0, 0] ∧
+    (r.st.workers 0).inProg = [] ∧ (r.st.workers 0).queue = [] ∧
+    (rebuildAt C31.cfg C31.resumedState (r.log.map (fun p => (p.1, fun _ _ _ _ => .stop))) 0).map
+      (fun s => ((s.workers 0).inProg.length, (s.workers 0).queue.length)) = some (0, 0) ∧
+    -- without the rewind the first logged tick (the result of worker 0) cannot be replayed
+    (r.log.head?.map fun p => (reduce C31.cfg (fun _ _ _ _ => .stop) p.1 C31.resumedState 0).2.contains .crash) = some true := by
+  decide
